@@ -104,6 +104,7 @@ def judge (op obs : String) : String :=
           if (pts.length : Int) ≠ n ∨ pts.isEmpty then fail "count"
           else if !specEllBBox sa sb pts then fail "bbox"
           else if !specEllNear sa sb pts then fail "within-one-pixel"
+          else if !specEllClosed pts then fail "closed"
           else "ok"
         | none => bad
       | _, _ => bad
